@@ -176,6 +176,28 @@ func main() {
 			*tier = "quick"
 		}
 		os.Exit(runCheck(prop, *tier, *only, *cases, *budget))
+	case "selftest":
+		what := "all"
+		if len(os.Args) > 2 {
+			what = os.Args[2]
+		}
+		fails := 0
+		if what == "all" || what == "fidelity" {
+			fails += selftestFidelity()
+		}
+		if what == "all" || what == "determinism" {
+			props := []string{"C06", "C07", "C08", "C12", "C14", "C15", "C16", "C18"}
+			if len(os.Args) > 3 {
+				props = os.Args[3:]
+			}
+			seeds := 3
+			fails += selftestDeterminism(props, seeds)
+		}
+		if fails > 0 {
+			fmt.Println("selftest: FAILED")
+			os.Exit(2)
+		}
+		fmt.Println("selftest: ok")
 	case "replay":
 		if len(os.Args) < 3 {
 			fatal2("replay needs a file")
@@ -619,9 +641,13 @@ func runCheck(prop, tier string, only, casesOverride, budgetOverride int) int {
 		"wall_s":      wall,
 		"violations":  nviol,
 	}
-	os.MkdirAll(filepath.Join(verifRoot, "evidence"), 0o755)
+	evDir := filepath.Join(verifRoot, "evidence")
+	if d := os.Getenv("VERIF_EVIDENCE_DIR"); d != "" {
+		evDir = d
+	}
+	os.MkdirAll(evDir, 0o755)
 	eb, _ := json.MarshalIndent(ev, "", " ")
-	if err := os.WriteFile(filepath.Join(verifRoot, "evidence", prop+".json"), eb, 0o644); err != nil {
+	if err := os.WriteFile(filepath.Join(evDir, prop+".json"), eb, 0o644); err != nil {
 		fatal2("write evidence: %v", err)
 	}
 	fmt.Printf("verifsim: %d cases, %d simulated runs, %d distinct non-trivial, %d ops, %d steps, sites %d/%d, %.1fs%s\n",
